@@ -1,6 +1,7 @@
 package worlds
 
 import (
+	"crypto/tls"
 	"io"
 	"net"
 	"strconv"
@@ -35,6 +36,9 @@ type UpScript struct {
 	// Tag: top two bits of every byte this upstream sends (multi-peer decoding)
 	Tag byte
 	Key uint64
+	// TLS: the upstream speaks TLS (the proxy dials it with its `tls` option);
+	// half-close is a close_notify alert
+	TLS bool
 }
 
 // UpByte is byte i of the stream sent by an upstream with the given tag/key.
@@ -101,6 +105,18 @@ func (p *ProxyUps) serve(addr string, c net.Conn, end *simnet.End, idx int) {
 		lk()
 		rec.Done, rec.DoneAt = true, e.S.Elapsed()
 		ulk()
+	}
+	if sc.TLS {
+		tc := tls.Server(c, &tls.Config{Certificates: []tls.Certificate{ServerCert()}})
+		if err := tc.Handshake(); err != nil {
+			lk()
+			rec.RecvErr = err
+			ulk()
+			_ = c.Close()
+			finish()
+			return
+		}
+		c = tc
 	}
 	read := func(echo bool) {
 		buf := make([]byte, 4096)
